@@ -173,6 +173,14 @@ theorem quiescent_wire_complete {α : Type} (ls : List (Flow.Lbl α)) (s : Flow.
     (hn : Flow.NoFailure s) (hq : s.queue = []) (hi : Flow.inflight s = []) : s.sent.map (·.2) = s.enq :=
   Flow.live_wire_eq_enq (Flow.reachable h) hn hq hi
 
+/-- … hence the last request of any kind (of any type) the control plane has received is the last one produced: with
+`last_request_tracks_interest` (the last request produced for a type lists its interest set) this is "once the client is
+quiescent the last request of each type on the live stream lists exactly the interest set", end to end -/
+theorem quiescent_last_on_wire_is_last_produced {α : Type} (ls : List (Flow.Lbl α)) (s : Flow.S α)
+    (h : Flow.run cap Flow.init ls = some s) (hn : Flow.NoFailure s) (hq : s.queue = []) (hi : Flow.inflight s = [])
+    (p : α → Bool) : ((s.sent.map (·.2)).filter p).getLast? = (s.enq.filter p).getLast? := by
+  rw [quiescent_wire_complete ls s h hn hq hi]
+
 /-- the channel never holds more than its capacity; a failed `Send` only ever happens on a dead stream -/
 theorem channel_bounded {α : Type} (ls : List (Flow.Lbl α)) (s : Flow.S α) (h : Flow.run cap Flow.init ls = some s) :
     s.queue.length ≤ cap ∧ ∀ r k, (r, some k) ∈ s.dropped → s.dead k = true :=
